@@ -115,15 +115,30 @@ func VerifH_C15_reader_fault_next_read() { c15Script(12, 2, 0b10, true, false, 2
 // whether step k is a Read (1) or a NextReader (0).  inject: a stream error may be
 // injected at any Read of the stream; frag: the stream fragments reads arbitrarily.
 func c15Script(L, K, pattern int, inject, frag bool, nchunk int) {
+	c15ScriptX(L, K, pattern, inject, frag, nchunk, 0)
+}
+
+// c15ScriptChunk: at most `chunk` bytes per stream read, the injected failure at any of the first 8 reads.
+func c15ScriptChunk(L, K, pattern int, inject bool, chunk int) {
+	c15ScriptX(L, K, pattern, inject, false, 0, chunk)
+}
+
+func c15ScriptX(L, K, pattern int, inject, frag bool, nchunk int, fixedChunk int) {
 	data := verif.Bytes(L)
 	rd := &fakeReader{data: data, fail: -1, frag: frag}
 	rd.eofWithData = verif.Bool()
-	if !frag {
+	if fixedChunk > 0 {
+		rd.chunk = fixedChunk
+	} else if !frag {
 		// concrete fragmentation: unlimited, or at most 1, 3, 2, 5 bytes per stream read (first nchunk options)
 		rd.chunk = [5]int{0, 1, 3, 2, 5}[verif.Choose(nchunk)]
 	}
 	if inject && verif.Bool() {
-		rd.fail = verif.Choose(4)
+		if fixedChunk > 0 {
+			rd.fail = verif.Choose(8)
+		} else {
+			rd.fail = verif.Choose(4)
+		}
 		rd.err = pickInjectedErr()
 	}
 	lim := verif.Int64()
@@ -211,7 +226,20 @@ func c15Script(L, K, pattern int, inject, frag bool, nchunk int) {
 			}
 		}
 	}
+	if rd.fail >= 0 && rd.calls > rd.fail && firstErr == nil {
+		// the stream failed underneath one of the calls above and none of them said so
+		_, _, err, _ := callNextReader(c)
+		verif.Assert(err != nil, "a stream failure is never swallowed: it is reported, at the latest by the next call")
+		_, _, err2, _ := callNextReader(c)
+		verif.Assert(err2 == err, "and stays reported")
+	}
 }
+
+// VerifH_C15_fault_while_skipping: one stream read fails while the unread rest of a message
+// is being skipped on the way to the next message (one byte per stream read, so the skip
+// needs several reads; the stream keeps serving data after the failed read).
+func VerifH_C15_fault_while_skipping() { c15ScriptChunk(5+verif.Tier(), 2, 0b00, true, 1) }
+func VerifHT_C15_fault_while_skipping_after_read() { c15ScriptChunk(6, 3, 0b010, true, 1) }
 
 // C10: the WebTransport read limit, any 64-bit declared length against any limit: the
 // same reader oracle as C15 (limit enforced before delivery, ErrReadLimit, session close).
